@@ -116,7 +116,7 @@ def replay_history(job):
                 ns = {'SYNTAX_DEFAULTS': arg}
                 ns.update({a: ConfColor(i) for a, i in acc.items()})
                 cls = type('Pal', (Palette,), ns)        # distinct classes that share one qualified name (as classes made by a factory do)
-                pals.append((cls, acc))
+                pals.append((cls, acc, {i: d for i, d in st['batch'].items()}))
                 cls(colors_conf=conf)
         except Exception as e:
             return '%s raised %s: %s' % (where, type(e).__name__, str(e)[:120]), tags
@@ -130,7 +130,7 @@ def replay_history(job):
             if _shown(gp[i]) != _want_state(v, no_color):
                 return '%s: get_palette()[%r] shows %s, expected %s' % (where, i, _shown(gp[i]), _want_state(v, no_color)), []
         # palettes obtained from the configuration now must reflect its current state
-        for cls, acc in pals:
+        for cls, acc, _b in pals:
             p = cls(colors_conf=conf)
             for a, i in acc.items():
                 want = _want_state(st['exp'][i], no_color)
@@ -145,7 +145,42 @@ def replay_history(job):
         nr = sum(1 for ln in rep.split('\n') if '<NOT RESOLVED>' in ln)
         if nr != len(st['pending']):
             return '%s: make_report() marks %d ids as not resolved, pending ids are %s' % (where, nr, st['pending']), []
+    # the same palette classes with ANOTHER configuration (first as no_color palette, then coloured): the defaults of
+    # the class must reach the new configuration too
+    if pals and not no_color:
+        conf2 = ColorsConfig({}, no_color=False)
+        declared = set()          # first declaration of an id wins, also in the second configuration
+        for cls, acc, batch in pals:
+            try:
+                pn = cls(colors_conf=conf2, no_color=True)      # only the no_color palette: the ids must be known already
+            except Exception as e:
+                return 'palette class used with a second configuration raised %s: %s' % (type(e).__name__, str(e)[:100]), []
+            for a, i in acc.items():
+                if _shown(getattr(pn, a)) != sgr.DEFAULT:
+                    return 'no_color palette of a second configuration has effects', []
+            own = getattr(cls, 'SYNTAX_DEFAULTS')
+            flat_own = _flat(own)
+            for a, i in acc.items():
+                d = flat_own.get(i)
+                if i in declared or d is None or i not in batch or batch[i]['p']:
+                    continue          # only first declarations without a parent are decided by the class alone
+                want = _shown(ColorsConfig({i: d}).get_color(i))
+                got = _shown(conf2.get_color(i))
+                if got != want:
+                    return ('second configuration: after %s(colors_conf=conf2, no_color=True) get_color(%r) shows %s, the '
+                            'class default %r gives %s' % (cls.__name__, i, got, d, want)), []
+            declared.update(flat_own)
     return None, []
+
+
+def _flat(d, prefix=''):
+    out = {}
+    for k, v in d.items():
+        if isinstance(v, dict):
+            out.update(_flat(v, prefix + k + '.'))
+        else:
+            out[prefix + k] = v
+    return out
 
 
 def run(ctx):
